@@ -38,16 +38,21 @@ KINDS = {
     'x{l1\nl2 ${1:f} l3}': dict(name='x', text=['l1', 'l2 f l3']),
     'x{l1 ${1:g}\nl2${0}}': dict(name='x', text=['l1 g', 'l2']),
     'x{l1\n\nl3}': dict(name='x', text=['l1', '', 'l3']),          # an empty text line is a line
+    # an implied attribute without a value is not written (also when it is the only / the last one); with a value it is
+    'x[!t]': dict(name='x'), 'x[a=b !t]': dict(name='x', attrs=[('a', 'b')]), 'x[!t=v]': dict(name='x', attrs=[('t', 'v')]),
+    # boolean attributes (listed names, matched whatever their letter case) in each syntax's own boolean form
+    'x[disabled a=b]': dict(name='x', attrs=[('disabled', ('bool',)), ('a', 'b')]), 'x[readOnly]': dict(name='x', attrs=[('readOnly', ('bool',))]),
     'x.k1.k2.k3.k4.k5.k6.k7.k8.k9.k10.k11': dict(name='x', cls=['k%d' % i for i in range(1, 12)]),
 }
 SMALL = ['x', '.c', 'x#i.c[a=b d]', 'x{l1\nl2}', 'br/', 'div[a=b]']
-MID = ['x', '.c', 'x#i.c[a=b d]', 'x{l1\nl2}', 'br/', 'x[hidden=until a=b]', 'x[e={v} a=b]', 'x{l1\nl2 ${1:f} l3}', 'x{l1\n\nl3}']
+MID = ['x', '.c', 'x#i.c[a=b d]', 'x{l1\nl2}', 'br/', 'x[hidden=until a=b]', 'x[e={v} a=b]', 'x{l1\nl2 ${1:f} l3}', 'x{l1\n\nl3}', 'x[a=b !t]', 'x[disabled a=b]']
 TINY = ['x', '.c', 'x{l1\nl2}', 'br/']
 SYNTAXES = ['haml', 'pug', 'slim']
 INDENTS = ['\t', '  ', '    ']
 BOUNDS = {
     # (elements, groups, repeaters, kind set, indents)
-    'quick': dict(sweeps=[(1, 1, 1, 'all', INDENTS), (2, 1, 1, 'all', INDENTS[:2]), (3, 0, 0, 'mid', INDENTS[:1]), (4, 0, 0, 'tiny', INDENTS[:1])]),
+    'quick': dict(sweeps=[(1, 1, 1, 'all', INDENTS), (2, 0, 0, 'all', INDENTS[:1]), (2, 1, 1, 'mid', INDENTS[:2]), (3, 0, 0, 'mid', INDENTS[:1]),
+                          (4, 0, 0, 'tiny', INDENTS[:1])]),
     'thorough': dict(sweeps=[(2, 1, 1, 'all', INDENTS), (3, 1, 1, 'mid', INDENTS[:2]), (4, 0, 0, 'mid', INDENTS[:1]),
                              (5, 0, 0, 'tiny', INDENTS[:1])]),
 }
@@ -92,7 +97,13 @@ def expected_lines(tree, syntax, indent, depth=0, parent_name='', out=None):
             head += '.' + '.'.join(k['cls'])
         attrs = k.get('attrs') or []
         if attrs:
-            parts = ['%s={%s}' % (a, v[1]) if isinstance(v, tuple) else '%s="%s"' % (a, v if v is not None else '') for a, v in attrs]
+            def part(a, v):
+                if isinstance(v, tuple) and v[0] == 'bool':
+                    return a + '=true' if syntax == 'haml' else a
+                if isinstance(v, tuple):
+                    return '%s={%s}' % (a, v[1])
+                return '%s="%s"' % (a, v if v is not None else '')
+            parts = [part(a, v) for a, v in attrs]
             if syntax == 'haml':
                 head += '(' + ' '.join(parts) + ')'
             elif syntax == 'pug':
